@@ -102,6 +102,7 @@ def parseItem (on : Bool) (s : String) : Option (List Item) :=
   match (s.splitOn " ").filter (· ≠ "") with
   | "R" :: _ => some []
   | "S" :: _ => some []
+  | "T" :: _ => some []
   | ["F", name, sf, th, _, _, _] =>
     let shape := (sf.take 1).toString
     let flags := (sf.drop 1).toString
@@ -116,9 +117,26 @@ def parseItem (on : Bool) (s : String) : Option (List Item) :=
     else (sequenceOpt (props.map parseProp)).map fun ps => [.pipe { name := name, props := ps }]
   | _ => none
 
-def parseProgram (on : Bool) (s : String) : Option (List Item) :=
-  if s.isEmpty then some []
-  else (sequenceOpt ((s.splitOn " | ").map (parseItem on))).map List.flatten
+/-- the name of a resource item whose flags say that the declaration is invalid (`x`) -/
+def badDecl? (item : String) : Option String :=
+  match (item.splitOn " ").filter (· ≠ "") with
+  | "R" :: name :: _ :: _ :: _ :: flags :: _ => if hasFlag flags 'x' then some name else none
+  | _ => none
+
+/-- the items up to the first declaration the front end rejects, and that declaration's name -/
+def splitAtBadDecl : List String → List String × Option String
+  | [] => ([], none)
+  | it :: rest =>
+    match badDecl? it with
+    | some n => ([], some n)
+    | none => let (a, b) := splitAtBadDecl rest; (it :: a, b)
+
+/-- the model's items (up to the first invalid declaration, whose name is the second component) -/
+def parseProgram (on : Bool) (s : String) : Option (List Item × Option String) :=
+  if s.isEmpty then some ([], none)
+  else
+    let (pre, bad) := splitAtBadDecl (s.splitOn " | ")
+    (sequenceOpt (pre.map (parseItem on))).map fun l => (l.flatten, bad)
 
 /-- an active Pipeline block has a property without a value (`x:0`): the parser rejects the file -/
 def hasGarbage (on : Bool) (s : String) : Bool :=
@@ -208,7 +226,10 @@ def handle (op : String) (args : List String) : String :=
     if hasGarbage (on == "on") prog then "err:parse"
     else
     match parseProgram (on == "on") prog with
-    | some items => showTyper (typeCheck items)
+    | some (items, bad) =>
+      match typeCheck items, bad with
+      | .ok _, some n => "err:decl@R:" ++ n
+      | r, _ => showTyper r
     | none => "unsupported"
   | "C17.wide", [tgt, mode, opts, prog, fails, bare] =>
     let optl := opts.splitOn ","
@@ -218,10 +239,11 @@ def handle (op : String) (args : List String) : String :=
     else if hasGarbage (opts.startsWith "on") prog then "err:front"
     else
     match parseMode mode, parseProgram (opts.startsWith "on") prog with
-    | some m, some items =>
+    | some m, some (items, bad) =>
       match typeCheck items with
       | .error (_, e) => if e.kind == .unsupported then "unsupported" else "err:front"
       | .ok s =>
+        if bad.isSome then "err:front" else
         if optl.contains "vl" && hasLayoutTrap prog then "err:front" else
         let msl := tgt == "msl"
         let failing := if fails == "-" then [] else fails.splitOn ","
